@@ -62,6 +62,10 @@ class IpReach:
         plength = unpack('!B', data[0:1])[0]
         # octet = int(math.ceil(plength / 8))
         octet = len(data[1:])
+        # an IPv6 prefix is at most 16 octets long: more were handed to ip_address(), whose ValueError left the
+        # UPDATE decoder untyped
+        if code == PROTOCOL_ID_IPV6 and octet > 16:
+            raise Notify(3, 10, f'BGP-LS ip reachability sub-tlv carries {octet} prefix octets')
 
         if code == PROTOCOL_ID_IPV6:
             # IPv6
